@@ -3,11 +3,13 @@ package props
 import (
 	"bytes"
 	"compress/gzip"
+	"context"
 	"github.com/AdguardTeam/urlfilter/rules"
 	"io"
 	"net/http"
 	"strconv"
 	"strings"
+	"time"
 
 	"github.com/AdguardTeam/urlfilter/proxy"
 
@@ -318,8 +320,26 @@ func c20Run(c *core.Ctx, idx int) {
 		if seg.piece < 1<<30 {
 			c.Event("bodies_delivered_in_pieces", 1)
 		}
+		// The context of the page request: live, or done before the response is
+		// filtered (the client went away, the deadline passed), or ending while
+		// the body is being read.  The response that is handed on is the same.
+		ctx, cancel := context.WithCancel(context.Background())
+		switch c.Rng.Intn(8) {
+		case 0:
+			cancel()
+			c.Event("page_requests_with_a_context_that_is_done", 1)
+		case 1:
+			var c2 context.CancelFunc
+			ctx, c2 = context.WithDeadline(ctx, time.Unix(1, 0))
+			defer c2()
+			c.Event("page_requests_with_a_context_that_is_done", 1)
+		case 2:
+			seg.after, seg.afterN = cancel, 1+c.Rng.Intn(4)
+			c.Event("page_requests_with_a_context_that_ends_while_the_body_is_read", 1)
+		}
+		defer cancel()
 		if c.Guard("filterHTML", nil, w, func() {
-			p.tag, p.res, p.err = proxy.VerifFilterHTMLFor(srv, method, result, pageURL, seg, declared, hdr)
+			p.tag, p.res, p.err = proxy.VerifFilterHTMLCtx(ctx, srv, method, result, pageURL, seg, declared, hdr)
 		}) {
 			continue
 		}
@@ -418,6 +438,10 @@ type c20SegReader struct {
 	data        []byte
 	piece       int
 	eofWithData bool
+	// after, when set, is called once after the afterN-th piece.
+	after  func()
+	afterN int
+	pieces int
 }
 
 // Read implements io.Reader.
@@ -428,6 +452,9 @@ func (r *c20SegReader) Read(p []byte) (n int, err error) {
 	n = min(len(p), r.piece, len(r.data))
 	copy(p, r.data[:n])
 	r.data = r.data[n:]
+	if r.pieces++; r.after != nil && r.pieces == r.afterN {
+		r.after()
+	}
 	if len(r.data) == 0 && r.eofWithData {
 		return n, io.EOF
 	}
@@ -445,7 +472,7 @@ func init() {
 		Level: "exploration",
 		Rule: "per case 4 bodies: ASCII, all 256 byte values or mostly high bytes, plain or gzip-encoded, with 0..4 markers (</head, <link, <style, <script in random letter case) whose first occurrence is placed at 0, early, at 16383/16384, straddling the window, beyond it, or where high-byte padding moves the transcoded offset over the window, with near-markers before it (truncated markers and markers with one byte changed in its case bit, high bit or value, e.g. 0x1c for '<'); " +
 			"pages on ASCII, punycode and capitalised hosts, with a port, on an address; " +
-			"oracle on bytes: output == body[:i]+tag+body[i:] when the marker's transcoded offset is inside the window, output == body when no marker starts before byte 16384, either exact form in between; Content-Length == len(output), Content-Encoding removed, tag has the content-script form (hook VerifFilterHTMLFor: pages fetched with GET, POST or PUT; one server for the four sessions of a case, pages of the same and of other hosts whose verdicts switch different cosmetic options off; the response is attached with Session.SetResponse and declares no charset, utf-8, windows-1251, euc-jp, utf-16, iso-8859-1 or an unknown one; the original body is delivered in pieces of 1 / 13 / 512 / 1460 / 4096 / 16384 bytes or at once, with a known or unknown declared length; the four responses of a case are filtered first and their bodies are read afterwards in another order); non-trivial = body with a marker; distinct by body head, marker offset and encoding",
+			"oracle on bytes: output == body[:i]+tag+body[i:] when the marker's transcoded offset is inside the window, output == body when no marker starts before byte 16384, either exact form in between; Content-Length == len(output), Content-Encoding removed, tag has the content-script form (hook VerifFilterHTMLCtx: pages fetched with GET, POST or PUT under a live context, one that is already done, or one that ends while the body is read; one server for the four sessions of a case, pages of the same and of other hosts whose verdicts switch different cosmetic options off; the response is attached with Session.SetResponse and declares no charset, utf-8, windows-1251, euc-jp, utf-16, iso-8859-1 or an unknown one; the original body is delivered in pieces of 1 / 13 / 512 / 1460 / 4096 / 16384 bytes or at once, with a known or unknown declared length; the four responses of a case are filtered first and their bodies are read afterwards in another order); non-trivial = body with a marker; distinct by body head, marker offset and encoding",
 		Assumptions: []string{
 			"the 16 KiB window is measured by the code on the Latin-1 to UTF-8 transcoded text; between the byte and the transcoded bound either outcome is accepted",
 		},
